@@ -14,7 +14,7 @@ from .. import attach, gen
 from ..core import dense_of, eps_of, to_numpy
 
 PROP = "C13"
-NCASES = {"quick": 4000, "thorough": 80000}
+NCASES = {"quick": 3000, "thorough": 80000}
 BUDGET = {"quick": 85, "thorough": 1500}
 RULE = ("states: MPS (open), PEPS 2x2-3x3, 3D 2x2x2 PEPS-like, random trees and loopy graphs "
         "(TN_from_edges_rand), <= 10 sites, bond 1-3, float/complex, normalised or not; complex "
